@@ -75,22 +75,18 @@ def concat(f, a, b):
 
 
 def stray_continuation_class(b):
-    """True iff b is WTF-8 with one or two stray continuation bytes after some complete
-    multi-byte sequences (the signature of the futf::classify rewind defect)"""
-    i, strays = 0, 0
-    n = len(b)
+    """True iff the first point where b stops being WTF-8 is a continuation byte directly after
+    a complete multi-byte sequence (the signature of the futf::classify rewind defect: the
+    validating loop re-reads the previous sequence from there and skips what follows)"""
+    i, n, lastw = 0, len(b), 0
     while i < n:
         x = b[i]
         w = 1 if x < 0x80 else 2 if 0xC2 <= x < 0xE0 else 3 if 0xE0 <= x < 0xF0 else 4 if 0xF0 <= x < 0xF5 else 0
-        if w == 0 or wtf8_decode(b[i:i + w]) is None:
-            return False
+        if w == 0 or i + w > n or wtf8_decode(b[i:i + w]) is None:
+            return 0x80 <= x < 0xC0 and lastw > 1
         i += w
-        k = 0
-        while w > 1 and i < n and 0x80 <= b[i] < 0xC0 and k < 2:
-            i += 1
-            k += 1
-            strays += 1
-    return strays > 0
+        lastw = w
+    return False
 
 
 def chars_of(f, b):
